@@ -1,6 +1,6 @@
 """C14 - ElGamal: correct, additively homomorphic, proofs bind ciphertext and key."""
 from ..core.sym import evaluate, strip_sites
-from ..core.terms import show, subterms
+from ..core.terms import show, subterms, T
 from ..core import guards as G
 from ..core import bytesnf as B
 from .common import where, spec, collect_constants
@@ -39,13 +39,19 @@ def run(ctx):
     vf = ctx.need_fn("E3.transcript", "BlsElGamal::verify_proof")
     want = [("new", pinned["merlin"]["protocol"], None), ("msg", "dst", pinned["salts"]["elgamal"]), ("msg", "base point", "G"), ("msg", "pk", "pk"), ("msg", "generator", "generator"), ("msg", "c1", "c1"), ("msg", "c2", "c2"), ("msg", "r1", "r1"), ("msg", "r2", "r2"), ("challenge", pinned["merlin"]["challenge"], pinned["merlin"]["challenge_len"])]
     seqs = {}
+    helpers = {}
     for f in (pr, vf):
         if f is None:
             continue
-        ev = evaluate(f)
-        evts = PR.transcript_events(ev)
+        evts, ev, mode, via = PR.transcript_events_in(P, f)
+        if mode in ("helper", "loop-helper"):
+            helpers[f.key] = via
+        if mode == "loop-helper":
+            _check_loop_transcript(ctx, P, f, via)
+            if evts is None:
+                continue
         if evts is None:
-            ctx.ob("E3.transcript.anchor", f.key, False, "no merlin transcript found in `%s`" % f.key, where=where(f))
+            ctx.ob("E3.transcript.anchor", f.key, False, "no merlin transcript found in `%s` (nor in a helper it calls)" % f.key, where=where(f))
             continue
         rl = roles(evts)
         # normalise roles of the computed commitments
@@ -70,13 +76,18 @@ def run(ctx):
         red = [s for s in ev.sites.values() if s.callee[0] == "BlsElGamal::scalar_from_bytes_wide"]
         ok_red = bool(red) and any(t.op == "mutcall" and B.cname(t) == "Transcript::challenge_bytes" for t in subterms(red[0].args[0]))
         ctx.ob("E5.transcript", f.key + "/reduce", ok_red, "challenge scalar = scalar_from_bytes_wide(challenge_bytes output)", where=where(f))
+    if len(helpers) == 2 and not seqs:
+        (g1, s1), (g2, s2) = helpers[pr.key], helpers[vf.key]
+        r1 = [_arg_roles(x) for x in s1.args]
+        r2 = [_arg_roles(x) for x in s2.args]
+        ctx.ob("E3.transcript", "prover==verifier", g1 is g2 and [len(x) for x in r1] == [len(x) for x in r2], "prover and verifier derive the challenge through the same helper `%s` with argument lists of the same shape" % g1.key, where=where(pr), weak=True)
     if len(seqs) == 2:
         a, b = list(seqs.values())
         ctx.ob("E3.transcript", "prover==verifier", [(x[0], x[1]) for x in a] == [(x[0], x[1]) for x in b], "prover and verifier transcripts are the same (kind, label) sequence", where=where(pr))
     # verifier recomputation dependence
     if vf is not None:
         ev = evaluate(vf)
-        evts = PR.transcript_events(ev) or []
+        evts = PR.transcript_events_in(P, vf)[0] or []
         byl = {l: p for k, l, p in evts if k == "msg"}
         def deps(label):
             segs = byl.get(label) or []
@@ -100,7 +111,10 @@ def run(ctx):
                 if atom[0] == "atom" and atom[1] == "eq":
                     x, y = atom[2], atom[3]
                     names = {t.a[1] for t in subterms(x) | subterms(y) if t.op == "param"}
-                    rec = any(t.op == "call" and B.cname(t) == "BlsElGamal::scalar_from_bytes_wide" for t in subterms(x) | subterms(y))
+                    from ..core.sym import inline
+
+                    xi, yi = inline(P, x, 1), inline(P, y, 1)
+                    rec = any(t.op == "call" and B.cname(t) == "BlsElGamal::scalar_from_bytes_wide" for t in subterms(xi) | subterms(yi))
                     if "challenge" in names and rec and pol:
                         hit = True
             good = good and hit
@@ -245,3 +259,49 @@ def _roles_ok(norm, want):
         if k == "challenge" and r != wr:
             return False
     return True
+
+
+
+def _arg_roles(t):
+    """Elements of an array / slice argument (or the argument itself)."""
+    x = B.peel(strip_sites(t))
+    if x.op == "agg" and x.a[0][0] == "array":
+        return list(x.a[1])
+    return [x]
+
+
+def _check_loop_transcript(ctx, P, f, via):
+    """The transcript is built by a loop in a helper (labels zipped with points).  Decided structurally: the two zipped
+    lists have statically known, equal lengths (zip silently stops at the shorter one), every iteration appends its
+    element, and every value the pinned transcript binds is an element of the list handed over."""
+    g, site = via
+    gev = evaluate(g)
+    zips = [s for s in gev.sites.values() if s.callee[0] == "Iterator::zip"]
+    lens = []
+    for z in zips:
+        for a in z.args[:2]:
+            src = B.peel(a)
+            while src.op == "call" and B.cname(src) in ("slice::<impl [T]>::iter", "IntoIterator::into_iter", "Iterator::copied", "Iterator::cloned"):
+                src = B.peel(src.a[1][0])
+            n = None
+            if src.op == "named" and isinstance(src.a[2], T) and src.a[2].op == "agg":
+                n = len(src.a[2].a[1])
+            elif src.op == "named":
+                import re as _re
+
+                for c in P.facts.get("consts", []):
+                    if c.get("name") == src.a[0]:
+                        m = _re.search(r"; (\d+)\]$", (c.get("value") or {}).get("ty", ""))
+                        n = int(m.group(1)) if m else None
+            elif src.op == "param":
+                arg = site.args[src.a[0] - 1] if src.a[0] - 1 < len(site.args) else None
+                if arg is not None:
+                    el = _arg_roles(arg)
+                    n = len(el) if len(el) > 1 else F.table_len(arg)
+            else:
+                n = F.table_len(src)
+            lens.append(n)
+    known = bool(lens) and all(n is not None for n in lens)
+    ctx.ob("E3.transcript", "%s/zip-lengths" % f.key, known and len(set(lens)) == 1, "transcript helper `%s` zips lists of length %s: %s" % (g.key, lens, "equal" if known and len(set(lens)) == 1 else "they must be statically known and equal - `zip` silently drops the tail of the longer list, i.e. a value the proof must bind"), where=where(g))
+    res = F.loops_push_every_iteration(g, accept=lambda s: s.callee[0].endswith("Transcript::append_message"))
+    ctx.ob("E3.transcript", "%s/every-element" % f.key, bool(res) and all(r[1] for r in res), "every iteration of the helper's loop appends its element to the transcript", where=where(g))
